@@ -298,6 +298,7 @@ func checkHistory(rep *Report, pool *DriverPool, c *WCase) {
 		dict = c.Set.Dict.Generate()
 	}
 	obs := RunW(c.Set, false, datas, c.Ops, 0)
+	compareModel(rep, pool, c, c.Set, datas, c.Ops, 0, obs)
 	key := fmt.Sprintf("%s|%s|%d|%d", c.Set, c.Datas[0].Gen, c.Datas[0].N, len(c.Ops))
 	triv := c.Datas[0].N == 0
 	if triv {
